@@ -168,6 +168,7 @@ type Broker struct {
 	upInfos  map[string]*message.UpstreamInfo
 	nextRid  uint32
 	aliasOff uint32
+	pointHolds []*pointHold
 }
 
 func NewBroker(rec *Rec) *Broker {
